@@ -11,8 +11,14 @@ import (
 )
 
 func (x *X) call(f *Frame, st *State, call *ast.CallExpr) []Value {
+	// copy-in/copy-out of sliced arrays is written back when the outermost call of an
+	// expression returns (nested calls such as conversions in the argument list must not flush)
+	f.callDepth++
 	res := x.call1(f, st, call)
-	x.flushWriteback(f, st)
+	f.callDepth--
+	if f.callDepth == 0 {
+		x.flushWriteback(f, st)
+	}
 	return res
 }
 
